@@ -26,7 +26,7 @@ func init() { harness.Register(check{}) }
 func (check) ID() string    { return "C17" }
 func (check) Level() string { return "exploration" }
 func (check) Rule() string {
-	return "bounded-exhaustive: all operation sequences of length <= 4 (quick) / <= 5 (thorough) over the widget's operations (insert of a narrow, a wide and a multi-codepoint grapheme, left, right, home, end, word-left, word-right, backspace, delete, kill-to-end, kill-to-start, kill-word, paste, Reset/SetContent, Enter) from 4 starting contents, plus random sequences of length 200, for vxfw TextField (driven through HandleEvent) and widgets/textinput (driven through Update); after every operation the widget's text and cursor index are compared with an ideal grapheme line editor, callbacks are logged, and the widget is drawn at every width 0..12 (TextField) / through a real Vaxis window (textinput) to compare the cursor column. A case is one history; distinct = hash of (widget, start, ops)"
+	return "bounded-exhaustive: all operation sequences of length <= 4 (quick) / <= 5 (thorough) over the widget's operations (insert of a narrow, a wide and a multi-codepoint grapheme, left, right, home, end, word-left, word-right, backspace, delete, kill-to-end, kill-to-start, kill-word, paste, Reset/SetContent, Enter) from 4 starting contents, plus random sequences of length 200, for vxfw TextField (driven through HandleEvent) and widgets/textinput (driven through Update); after every operation the widget's text and cursor index are compared with an ideal grapheme line editor, callbacks are logged, and the widget is drawn at every width 0..12 (TextField) / through a real Vaxis window (textinput, plain and with SetInvisibleChar) to compare the cursor column. A case is one history; distinct = hash of (widget, start, ops)"
 }
 func (check) Assumptions() []string {
 	return []string{
@@ -611,7 +611,7 @@ func (c check) Run(w *harness.W, b harness.Batch) {
 }
 
 func (check) Finalize(tier string, m *harness.Merged) string {
-	if m.Counts["histories_textfield"] == 0 || m.Counts["histories_textinput"] == 0 || m.Counts["textinput_draws"] == 0 {
+	if m.Counts["histories_textfield"] == 0 || m.Counts["histories_textinput"] == 0 || m.Counts["textinput_draws"] == 0 || m.Counts["textinput_password_draws"] == 0 {
 		return "a widget was never exercised"
 	}
 	return ""
